@@ -97,6 +97,13 @@ Proof.
 Qed.
 Print Assumptions C13_shape.
 
+(* the returned ledger is again sorted by date (each stage hands a sorted ledger to the next,
+   which is what makes the library's bisect_left and its linear scans agree) *)
+Theorem C13_result_sorted : forall o op cl clr l,
+  sorted_dates l -> check_dates op cl = FromOk -> sorted_dates (prepare_c o op cl clr l).
+Proof. exact prepared_sorted. Qed.
+Print Assumptions C13_result_sorted.
+
 (* every Assets / Liabilities account, every lot: total over the returned rows = balance
    as of e (ledger end without a CLOSE date) in the full ledger -- for every subset of clauses *)
 Theorem C13_assets_liabilities_preserved : forall o op cl clr l a k,
